@@ -22,9 +22,11 @@ import (
 	"seehuhn.de/go/geom/matrix"
 	"seehuhn.de/go/postscript/cid"
 	"seehuhn.de/go/postscript/funit"
+	"seehuhn.de/go/postscript/type1"
 
 	"seehuhn.de/go/sfnt"
 	"seehuhn.de/go/sfnt/cff"
+	"seehuhn.de/go/sfnt/cmap"
 	"seehuhn.de/go/sfnt/glyf"
 	"seehuhn.de/go/sfnt/glyph"
 	"seehuhn.de/go/sfnt/internal/debug"
@@ -64,7 +66,10 @@ type Env struct {
 
 var fixedTime = time.Date(2024, 5, 17, 12, 0, 0, 0, time.UTC)
 
-var EnvNames = []string{"cff", "cff-gtab", "cff-sub", "cff-cid", "cff-nonames", "glyf", "glyf-gtab", "glyf-sub", "glyf-mono", "glyf-bi", "glyf-nonames"}
+var EnvNames = []string{"cff", "cff-gtab", "cff-sub", "cff-cid", "cff-nonames", "glyf", "glyf-gtab", "glyf-sub", "glyf-mono", "glyf-bi", "glyf-nonames",
+	// written by Font.Write and read back by sfnt.Read: everything the readers
+	// build (FDSelect closures, decoded tables) is in play
+	"rt-cid3", "rt-cid0", "rt-cff", "rt-glyf"}
 
 const richGsub = `GSUB5: "AA" -> 1@0 2@1 || "BC" -> 3@0
 	GSUB1: "A" -> "B", "C" -> "D"
@@ -150,6 +155,15 @@ func BuildEnv(name string) (e *Env, err error) {
 		f, kind = readTTF(gobolditalic.TTF), "glyf"
 	case strings.HasPrefix(name, "glyf"):
 		f, kind = readTTF(goregular.TTF), "glyf"
+	case name == "rt-cid3" || name == "rt-cid0":
+		f = roundTrip(makeCIDFont(name == "rt-cid3"))
+		checkCIDEnv(f, name == "rt-cid3")
+	case name == "rt-cff":
+		g := debug.MakeSimpleFont()
+		g.CreationTime, g.ModificationTime = fixedTime, fixedTime
+		f = roundTrip(g)
+	case name == "rt-glyf":
+		f, kind = roundTrip(readTTF(goregular.TTF)), "glyf"
 	default:
 		return nil, fmt.Errorf("unknown env %q", name)
 	}
@@ -236,6 +250,101 @@ func BuildEnv(name string) (e *Env, err error) {
 		e.orig[m] = c
 	}
 	return e, nil
+}
+
+// ---- fonts that went through the writer and the reader
+
+const (
+	cidGlyphs = 96
+	cidFDs    = 4
+)
+
+// cidFD assigns glyphs to private dictionaries: in runs of 6 glyphs (16
+// ranges over 4 dictionaries: the writer stores FDSelect in format 3) or
+// glyph by glyph (the writer picks format 0).
+func cidFD(gid int, runs bool) int {
+	if runs {
+		return (gid / 6) % cidFDs
+	}
+	return gid % cidFDs
+}
+
+func makeCIDFont(runs bool) *sfnt.Font {
+	o := &cff.Outlines{}
+	for i := 0; i < cidGlyphs; i++ {
+		w := 300 + 5*float64(i)
+		g := cff.NewGlyph("", w)
+		g.MoveTo(0, 0)
+		g.LineTo(w, 0)
+		g.LineTo(w, 400+float64(i))
+		g.LineTo(float64(i), 500)
+		o.Glyphs = append(o.Glyphs, g)
+		o.GIDToCID = append(o.GIDToCID, cid.CID(i))
+	}
+	for fd := 0; fd < cidFDs; fd++ {
+		o.Private = append(o.Private, &type1.PrivateDict{
+			BlueValues: []funit.Int16{-10, 0, 500, 510},
+			BlueScale:  0.039625,
+			BlueShift:  7,
+			BlueFuzz:   1,
+			StdHW:      float64(10*fd + 20),
+		})
+		// a different scale per dictionary: PDF widths and boxes depend on
+		// the dictionary FDSelect returns
+		o.FontMatrices = append(o.FontMatrices, matrix.Scale(float64(fd+1), float64(fd+1)))
+	}
+	o.FDSelect = func(gid glyph.ID) int { return cidFD(int(gid), runs) }
+	o.ROS = &cid.SystemInfo{Registry: "Adobe", Ordering: "Identity", Supplement: 0}
+
+	cm := cmap.Format4{}
+	for i := 1; i < cidGlyphs; i++ {
+		cm[uint16(0x20+i)] = glyph.ID(i)
+	}
+	f := &sfnt.Font{
+		FamilyName:       "VerifCID",
+		UnitsPerEm:       1000,
+		FontMatrix:       matrix.Matrix{0.001, 0, 0, 0.001, 0, 0},
+		Ascent:           500,
+		Descent:          -100,
+		Outlines:         o,
+		CreationTime:     fixedTime,
+		ModificationTime: fixedTime,
+	}
+	f.InstallCMap(cm)
+	return f
+}
+
+func roundTrip(f *sfnt.Font) *sfnt.Font {
+	buf := &bytes.Buffer{}
+	if _, err := f.Write(buf); err != nil {
+		panic(fmt.Sprintf("round trip: Write: %v", err))
+	}
+	g, err := sfnt.Read(bytes.NewReader(buf.Bytes()))
+	if err != nil {
+		panic(fmt.Sprintf("round trip: Read: %v", err))
+	}
+	return g
+}
+
+// checkCIDEnv makes sure the font read back has the structure the
+// environment is meant to have.
+func checkCIDEnv(f *sfnt.Font, runs bool) {
+	o, ok := f.Outlines.(*cff.Outlines)
+	if !ok || !o.IsCIDKeyed() || len(o.Private) != cidFDs || len(o.Glyphs) != cidGlyphs {
+		panic("CID environment: unexpected structure after reading back")
+	}
+	changes := 0
+	for g := 0; g < cidGlyphs; g++ {
+		if o.FDSelect(glyph.ID(g)) != cidFD(g, runs) {
+			panic("CID environment: FDSelect differs after reading back")
+		}
+		if g > 0 && cidFD(g, runs) != cidFD(g-1, runs) {
+			changes++
+		}
+	}
+	if runs && changes != cidGlyphs/6-1 {
+		panic("CID environment: unexpected number of FDSelect ranges")
+	}
 }
 
 // ---------------------------------------------------------------- cells
@@ -369,6 +478,21 @@ func hashOf(p any) string {
 func subsetGlyphs(e *Env, arg int) []glyph.ID {
 	n := e.Font.NumGlyphs()
 	cm, _ := e.Font.CMapTable.GetBest()
+	if e.Kind == "cff" && e.Font.Gsub == nil && arg%6 >= 4 {
+		// lists that jump between distant parts of the glyph set (for the
+		// CID-keyed fonts: between FDSelect ranges), in non-monotone order
+		k := arg % 6
+		gg := []glyph.ID{0}
+		seen := map[int]bool{0: true}
+		for i := 1; i < 14; i++ {
+			g := 1 + (i*(29+6*k)+11*k)%(n-1)
+			if !seen[g] {
+				seen[g] = true
+				gg = append(gg, glyph.ID(g))
+			}
+		}
+		return gg
+	}
 	var text string
 	switch arg % 4 {
 	case 0:
@@ -499,6 +623,37 @@ func Op_GlyphBBox(e *Env, tc *ThreadCtx, arg int) string {
 		r := f.Outlines.GlyphBBoxPDF(f.FontMatrix, glyph.ID(g))
 		b.WriteString(fbits(r.LLx) + fbits(r.LLy) + fbits(r.URx) + fbits(r.URy) + "|")
 	}
+	return fmt.Sprintf("%x", strHash(b.String()))
+}
+
+// Op_FDSweep asks for PDF widths and boxes of many glyphs in an order that
+// depends on arg (descending, strided, zig-zag): for CID-keyed fonts every
+// call goes through Outlines.FDSelect with glyphs from different ranges.
+func Op_FDSweep(e *Env, tc *ThreadCtx, arg int) string {
+	f := e.Font
+	n := f.NumGlyphs()
+	var b strings.Builder
+	for i := 0; i < n && i < 400; i++ {
+		var g int
+		switch arg % 4 {
+		case 0:
+			g = n - 1 - i
+		case 1:
+			g = (i * 7) % n
+		case 2:
+			g = (i * 31) % n
+		default:
+			if i%2 == 0 {
+				g = i / 2
+			} else {
+				g = n - 1 - i/2
+			}
+		}
+		r := f.Outlines.GlyphBBoxPDF(f.FontMatrix, glyph.ID(g))
+		b.WriteString(fbits(f.GlyphWidthPDF(glyph.ID(g))) + fbits(r.LLx) + fbits(r.URx) + fbits(r.URy) + "|")
+	}
+	p := f.FontBBoxPDF()
+	b.WriteString(fbits(p.LLx) + fbits(p.LLy) + fbits(p.URx) + fbits(p.URy))
 	return fmt.Sprintf("%x", strHash(b.String()))
 }
 
@@ -763,13 +918,14 @@ func init() {
 	Ops = []OpSpec{
 		{Name: "Write", Fn: Op_Write, NArg: 1},
 		{Name: "WritePDF", Fn: Op_WritePDF, NArg: 2},
-		{Name: "Subset", Fn: Op_Subset, NArg: 4},
-		{Name: "SubsetWrite", Fn: Op_SubsetWrite, NArg: 4},
+		{Name: "Subset", Fn: Op_Subset, NArg: 6},
+		{Name: "SubsetWrite", Fn: Op_SubsetWrite, NArg: 6},
 		{Name: "Clone", Fn: Op_Clone, NArg: 1},
 		{Name: "CloneModify", Fn: Op_CloneModify, NArg: 3},
 		{Name: "FontBBox", Fn: Op_FontBBox, NArg: 1},
 		{Name: "Widths", Fn: Op_Widths, NArg: 1},
 		{Name: "GlyphBBox", Fn: Op_GlyphBBox, NArg: 1},
+		{Name: "FDSweep", Fn: Op_FDSweep, NArg: 4},
 		{Name: "MakeGlyphNames", Fn: Op_MakeGlyphNames, NArg: 1},
 		{Name: "GetFontInfo", Fn: Op_GetFontInfo, NArg: 1},
 		{Name: "AsCFFWrite", Fn: Op_AsCFFWrite, Kind: "cff", NArg: 1},
